@@ -57,9 +57,30 @@ const (
 func VC06_Eligibility() {
 	ibgp := vParam("ibgp") == 1
 	v := vrf.NewUntrackedVRF("master", 0)
-	v.AddContributingASN(c06LocalASN)
-	v.AddContributingASN(c06OtherLocal)
-	v.AddContributingClusterID(c06ClusterID)
+	switch vParam("hist") {
+	case 1:
+		// another session (own local AS 65010, cluster 0x0a0000aa) came up first and has gone down since
+		v.AddContributingASN(65010)
+		v.AddContributingClusterID(0x0a0000aa)
+		v.AddContributingASN(c06LocalASN)
+		v.AddContributingASN(c06OtherLocal)
+		v.AddContributingClusterID(c06ClusterID)
+		v.RemoveContributingASN(65010)
+		v.RemoveContributingClusterID(0x0a0000aa)
+	case 2:
+		// two sessions share the local AS / cluster ID, one of them has gone down
+		v.AddContributingASN(c06LocalASN)
+		v.AddContributingASN(c06OtherLocal)
+		v.AddContributingASN(c06LocalASN)
+		v.AddContributingClusterID(c06ClusterID)
+		v.AddContributingClusterID(c06ClusterID)
+		v.RemoveContributingASN(c06LocalASN)
+		v.RemoveContributingClusterID(c06ClusterID)
+	default:
+		v.AddContributingASN(c06LocalASN)
+		v.AddContributingASN(c06OtherLocal)
+		v.AddContributingClusterID(c06ClusterID)
+	}
 	peerASN := uint32(65101)
 	if ibgp {
 		peerASN = c06LocalASN
